@@ -109,6 +109,12 @@ func init() {
 			add(s)
 		}
 		{
+			pv := jobBase("count2-Any-att2-vanish")
+			pv.Parallelism, pv.Strategy, pv.MaxAttempts, pv.MaxFail = "count2", "AnySuccessful", 2, 1
+			pv.PodActions, pv.MaxVanish = []string{"quick", "run", "vanish"}, 1
+			add(pv)
+		}
+		{
 			// A task reaped for its pending timeout finishes on its own during graceful deletion and then goes away.
 			lf := jobBase("none-att2-pendingtimeout-latefinish")
 			lf.MaxAttempts, lf.MaxFail = 2, 1
@@ -285,6 +291,11 @@ func init() {
 			s.PodActions = []string{"quick", "sched"}
 			add(s)
 		}
+		// A helper container exits while the main container runs: the Pod is Running, the task is not over.
+		sc := jobBase("none-att2-sidecar-exits-first")
+		sc.MaxAttempts, sc.MaxFail, sc.MaxFlap = 2, 1, 1
+		sc.PodActions = []string{"run", "succeed", "fail", "sidecar"}
+		add(sc)
 		s = jobBase("count2-Any-att1-kubeletlate")
 		s.Parallelism, s.Strategy = "count2", "AnySuccessful"
 		s.PodActions = []string{"run", "succeed", "fail"}
@@ -322,6 +333,11 @@ func init() {
 				add(l)
 			}
 		}
+		// A finished parallel Job whose deciding Pod disappears afterwards must stay finished.
+		pv := jobBase("count2-Any-att2-vanish")
+		pv.Parallelism, pv.Strategy, pv.MaxAttempts, pv.MaxFail = "count2", "AnySuccessful", 2, 1
+		pv.PodActions, pv.MaxVanish = []string{"quick", "run", "vanish"}, 1
+		add(pv)
 		uf := jobBase("none-att1-status-flaps-after-finish")
 		uf.PodActions = []string{"run", "succeed", "fail", "unfinish"}
 		uf.MaxFlap = 1
@@ -450,6 +466,10 @@ func init() {
 				add(l)
 			}
 		}
+		of := jobBase("none-other-finalizer-delete")
+		of.OtherFinalizer, of.DeleteJob = true, true
+		of.PodActions = fullPod
+		add(of)
 		s := jobBase("none-notstarted-delete")
 		s.NotStarted, s.DeleteJob = true, true
 		s.PodActions = fullPod
